@@ -792,6 +792,7 @@ def _worker_init() -> None:
     """
 
     logger.setLevel(logging.WARNING)
+    np.random.seed()  # a forked worker inherits the parent's generator state: reseed, otherwise all workers draw the same samples
 
 
 def parallel_progress(fcn, inputs, num_workers=None, show_progress=True) -> list:
